@@ -1,10 +1,26 @@
-"""Binding 1 of C07: derive the model constant SharedVars from the source of each parallel loop."""
+"""Binding 1 of C07: derive the model constant SharedVars from the source of each parallel loop.
+
+For every `#pragma omp parallel for` in dd_dtw_openmp.c the loop body is scanned for scalars that are
+assigned inside the body but are neither declared inside it, nor privatised by a clause (private,
+firstprivate, lastprivate, reduction, linear), nor the loop variable: those are shared between the threads.
+
+* r, c, c_i are the scalars the model knows (ParallelDM's SharedVars); TLC decides what sharing them does.
+* any other shared scalar is classified:
+    harmful  - it is read somewhere in the body AND some assignment to it depends on per-iteration state (the
+               loop variable, a privatised or body-local variable, another shared-assigned scalar, or it is
+               updated in place with ++ / += ...): threads can read each other's values;
+    benign   - write-only flags, or values computed from loop-invariant data only (every thread writes the
+               same value).  Reported in the evidence, never as a violation.
+"""
 import os
 import re
 
 from . import build
 
 NAMES = {"r": "r", "c": "c", "c_i": "ci"}
+_KEYWORDS = {"return", "else", "goto", "case", "do", "sizeof", "typedef", "break", "continue", "if", "for",
+             "while", "switch"}
+_IDENT = re.compile(r"[A-Za-z_]\w*")
 
 
 def _match_brace(text, i):
@@ -19,38 +35,110 @@ def _match_brace(text, i):
     raise ValueError("unbalanced braces")
 
 
+def _strip_comments(text):
+    text = re.sub(r"/\*.*?\*/", lambda m: re.sub(r"[^\n]", " ", m.group(0)), text, flags=re.S)
+    text = re.sub(r"//[^\n]*", "", text)
+    return text
+
+
+def _declared(body):
+    out = set()
+    # a declaration starts a statement: [qualifiers] type [*] name (= | ; | , | [)
+    for m in re.finditer(r"(?:^|[;{}])\s*((?:(?:const|unsigned|signed|struct|static|volatile|register)\s+)*"
+                         r"[A-Za-z_]\w*)\s*[\s\*]\s*\**\s*([A-Za-z_]\w*)\s*(?==|;|,|\[)", body):
+        typ = m.group(1).split()[-1]
+        if typ in _KEYWORDS or m.group(2) in _KEYWORDS:
+            continue
+        out.add(m.group(2))
+        # further declarators of the same statement: "idx_t a, b = 0, *c;"
+        stmt_end = body.find(";", m.end())
+        rest = body[m.end():stmt_end if stmt_end >= 0 else len(body)]
+        depth = 0
+        cur = ""
+        parts = []
+        for ch in rest:
+            if ch in "([{":
+                depth += 1
+            elif ch in ")]}":
+                depth -= 1
+            if ch == "," and depth == 0:
+                parts.append(cur)
+                cur = ""
+            else:
+                cur += ch
+        parts.append(cur)
+        for part in parts[1:]:
+            dm = re.match(r"\s*\**\s*([A-Za-z_]\w*)", part)
+            if dm:
+                out.add(dm.group(1))
+    # loop-scoped declarations: for (idx_t k = 0; ...)
+    for m in re.finditer(r"for\s*\(\s*(?:(?:const|unsigned|signed)\s+)*[A-Za-z_]\w*[\s\*]+([A-Za-z_]\w*)\s*=", body):
+        out.add(m.group(1))
+    return out
+
+
 def parse(path=None):
-    """Returns list of dicts: function, private, loopvar, assigned, declared, shared."""
+    """Returns list of dicts: function, private, loopvar, assigned, declared, shared, harmful, benign."""
     path = path or os.path.join(build.REPO, build.CDIR, "dd_dtw_openmp.c")
-    text = open(path).read()
+    text = _strip_comments(open(path).read().replace("\\\n", " "))
     out = []
-    for m in re.finditer(r"#pragma\s+omp\s+parallel\s+for([^\n]*)\n", text):
+    for m in re.finditer(r"#\s*pragma\s+omp\s+parallel\s+for([^\n]*)\n", text):
         clauses = m.group(1)
         priv = set()
-        for pm in re.finditer(r"(?:first|last)?private\s*\(([^)]*)\)", clauses):
-            priv |= {x.strip() for x in pm.group(1).split(",") if x.strip()}
-        fm = re.compile(r"\s*for\s*\(\s*(?:\w+\s+)?(\w+)\s*=").match(text, m.end())
+        for pm in re.finditer(r"\b(firstprivate|lastprivate|private|linear)\s*\(([^)]*)\)", clauses):
+            for x in pm.group(2).split(","):
+                x = x.strip()
+                if not x:
+                    continue
+                if pm.group(1) == "linear":
+                    x = x.split(":")[0].strip()           # linear(x:step)
+                else:
+                    x = x.split(":")[-1].strip()          # lastprivate(conditional: x)
+                priv.add(x)
+        for pm in re.finditer(r"\breduction\s*\(([^)]*)\)", clauses):
+            lst = pm.group(1).split(":", 1)[-1]
+            priv |= {x.strip() for x in lst.split(",") if x.strip()}
+        fm = re.compile(r"\s*for\s*\(\s*(?:[A-Za-z_]\w*[\s\*]+)?(\w+)\s*=").match(text, m.end())
         if not fm:
-            raise ValueError("pragma not followed by a for loop at offset %d" % m.start())
+            # not a canonical loop we understand: nothing is claimed from the source for this pragma
+            out.append({"function": "?", "private": sorted(priv), "loopvar": None, "assigned": [], "declared": [],
+                        "shared": [], "harmful": [], "benign": [], "unparsed": True})
+            continue
         loopvar = fm.group(1)
         i = text.index("{", fm.end())
         j = _match_brace(text, i)
         body = text[i + 1:j]
-        # enclosing function name
         fn = re.findall(r"^\w[\w\s\*]*?\b(\w+)\s*\([^;{]*\)\s*\{", text[:m.start()], re.M)
         fname = fn[-1] if fn else "?"
-        declared = set(re.findall(r"\b(?:double|float|int|idx_t|seq_t|long|size_t|bool)\s+\*?\s*(\w+)\s*(?:=|;|,)", body))
-        assigned = set()
-        for am in re.finditer(r"(?<![\w\]\.>])(\w+)\s*(=(?!=)|\+\+|--|\+=|-=|\*=)", body):
-            assigned.add(am.group(1))
-        for am in re.finditer(r"(\+\+|--)\s*(\w+)\b(?!\s*\[)", body):
-            assigned.add(am.group(2))
+        declared = _declared(body)
+        assigned = {}
+        for am in re.finditer(r"(?<![\w\]\.>])([A-Za-z_]\w*)\s*(=(?!=)|\+\+|--|\+=|-=|\*=|/=|\|=|&=|\^=|<<=|>>=)", body):
+            name, op = am.group(1), am.group(2)
+            if name in _KEYWORDS:
+                continue
+            end = body.find(";", am.end())
+            rhs = body[am.end():end if end >= 0 else len(body)]
+            assigned.setdefault(name, []).append((op, rhs, am.start()))
+        for am in re.finditer(r"(\+\+|--)\s*([A-Za-z_]\w*)\b(?!\s*\[)", body):
+            assigned.setdefault(am.group(2), []).append((am.group(1), "", am.start()))
         # array element writes such as output[...] = are not scalars
         arrays = set(re.findall(r"\b(\w+)\s*\[", body))
         scalars = {a for a in assigned if a not in arrays}
         shared = scalars - declared - priv - {loopvar}
+        per_iter = declared | priv | {loopvar} | shared
+        harmful, benign = [], []
+        for v in sorted(shared):
+            if v in NAMES:
+                continue
+            writes = assigned[v]
+            # is it read anywhere other than as the target of a plain assignment?
+            occurrences = [mm.start() for mm in re.finditer(r"(?<![\w\.>])%s\b" % re.escape(v), body)]
+            plain_targets = {pos for (op, _rhs, pos) in writes if op == "="}
+            read = any(pos not in plain_targets for pos in occurrences)
+            dependent = any(op != "=" or (set(_IDENT.findall(rhs)) & (per_iter - {v})) for (op, rhs, _p) in writes)
+            (harmful if (read and dependent) else benign).append(v)
         out.append({"function": fname, "private": sorted(priv), "loopvar": loopvar, "assigned": sorted(scalars),
-                    "declared": sorted(declared), "shared": sorted(shared)})
+                    "declared": sorted(declared), "shared": sorted(shared), "harmful": harmful, "benign": benign})
     return out
 
 
